@@ -4,6 +4,7 @@ import (
 	"bytes"
 	"context"
 	"fmt"
+	"io"
 	"strings"
 	"testing"
 	"time"
@@ -270,6 +271,13 @@ func c06Run(c c06Case) []*core.Violation {
 		case "reset":
 			m.Reset()
 			model = map[string][]c06Addr{}
+		case "render":
+			// the caller renders (or sends) the message in the middle of building it, e.g. one mailing
+			// with a bounce address per recipient: rendering neither consumes nor changes the lists
+			if len(m.GetParts()) == 0 {
+				m.SetBodyString(mail.TypeTextPlain, "c06 body text\r\n")
+			}
+			_, _ = m.WriteTo(io.Discard)
 		default:
 			return []*core.Violation{core.V("HARNESS-op", "unknown op %q", op.Kind)}
 		}
@@ -431,7 +439,9 @@ func c06Run(c c06Case) []*core.Violation {
 	return vs
 }
 
-var c06Names = []string{"", "", "Alice Example", "Müller, Jörg", "日本 太郎", "quote\"inside", "back\\slash", "Dr. A. B. <not@addr>", "comma, separated; semi", "(paren)", "a@b", "Ünï cödé with a really long display name that needs several encoded words to fit"}
+var c06Names = []string{"", "", "Alice Example", "Müller, Jörg", "日本 太郎", "quote\"inside", "back\\slash", "Dr. A. B. <not@addr>", "comma, separated; semi", "(paren)", "a@b", "Ünï cödé with a really long display name that needs several encoded words to fit",
+	// runes that are not "printable" for strconv but perfectly legal in a display name
+	"山田\u3000太郎", "Jean\u00a0Dupont", "rtl\u200fmark", "soft\u00adhyphen", "zero\u200bwidth"}
 var c06Invalid = []string{"not an address", "missing-domain@", "@missing-local.example", "two words@example.com", "trailing@example.com>", "<unclosed@example.com", "a@b@c@", ""}
 
 func c06GenAddr(t *rapid.T, hdr string, seq *int) c06Addr {
@@ -461,13 +471,13 @@ func c06Gen(t *rapid.T) c06Case {
 	seq := 0
 	n := rapid.IntRange(2, 12).Draw(t, "nops")
 	for i := 0; i < n; i++ {
-		kind := rapid.SampledFrom([]string{"set", "set", "add", "add", "addformat", "addformat", "ignoreinvalid", "fromstring", "setaddrheader", "setaddrheaderignoreinvalid", "reset"}).Draw(t, "kind")
+		kind := rapid.SampledFrom([]string{"set", "set", "add", "add", "addformat", "addformat", "ignoreinvalid", "fromstring", "setaddrheader", "setaddrheaderignoreinvalid", "reset", "render"}).Draw(t, "kind")
 		if kind == "reset" && rapid.IntRange(0, 3).Draw(t, "reallyreset") != 0 {
 			kind = "add"
 		}
 		op := c06Op{Kind: kind}
 		switch kind {
-		case "reset":
+		case "reset", "render":
 		case "add", "ignoreinvalid", "fromstring":
 			op.Hdr = rapid.SampledFrom([]string{"to", "cc", "bcc", "bcc"}).Draw(t, "hdr")
 		case "setaddrheaderignoreinvalid":
@@ -477,7 +487,7 @@ func c06Gen(t *rapid.T) c06Case {
 		}
 		single := kind == "add" || kind == "addformat" || (kind == "set" && (op.Hdr == "from" || op.Hdr == "env" || op.Hdr == "replyto"))
 		cnt := 1
-		if !single && kind != "reset" {
+		if !single && kind != "reset" && kind != "render" {
 			cnt = rapid.IntRange(1, 4).Draw(t, "naddrs")
 			// calling a list setter with no address at all clears the list (one call in eight)
 			if (kind == "set" || kind == "fromstring" || kind == "setaddrheader" || kind == "ignoreinvalid") && op.Hdr != "from" && op.Hdr != "env" && op.Hdr != "replyto" && rapid.IntRange(0, 7).Draw(t, "emptylist") == 0 {
@@ -487,7 +497,7 @@ func c06Gen(t *rapid.T) c06Case {
 				cnt = 1
 			}
 		}
-		if kind != "reset" {
+		if kind != "reset" && kind != "render" {
 			for j := 0; j < cnt; j++ {
 				a := c06GenAddr(t, op.Hdr, &seq)
 				if kind == "fromstring" && (strings.Contains(a.text(), ",") || a.Invalid == " ") {
@@ -508,7 +518,7 @@ func c06Gen(t *rapid.T) c06Case {
 
 func TestC06(t *testing.T) {
 	rec := core.Rec("C06")
-	rec.Rule = "rapid draws a sequence of 2..12 address-setting calls (list setters also with an empty argument list, which clears the list) over To/Cc/Bcc/From/EnvelopeFrom/ReplyTo: strict setters (To, Cc, Bcc, From, EnvelopeFrom, ReplyTo, SetAddrHeader), Add*, *Format, *IgnoreInvalid, *FromString, SetAddrHeaderIgnoreInvalid and Reset, with display names that need quoting or RFC 2047 encoding, duplicates, and invalid entries mixed in (one in six). Bcc mailboxes are unique tokens. " +
+	rec.Rule = "rapid draws a sequence of 2..12 address-setting calls (list setters also with an empty argument list, which clears the list) over To/Cc/Bcc/From/EnvelopeFrom/ReplyTo: strict setters (To, Cc, Bcc, From, EnvelopeFrom, ReplyTo, SetAddrHeader), Add*, *Format, *IgnoreInvalid, *FromString, SetAddrHeaderIgnoreInvalid, Reset and an intermediate render of the message (which must change nothing), with display names that need quoting or RFC 2047 encoding, duplicates, and invalid entries mixed in (one in six). Bcc mailboxes are unique tokens. " +
 		"A model keeps the expected lists (replace vs append, all-or-nothing for strict setters, From keeps the first, IgnoreInvalid = subsequence of the valid inputs containing every valid ASCII-named input). The message is then rendered and sent with DialAndSend to the reference server. " +
 		"Oracle: setter verdicts match validity; envelope sender = envelope-from if set else From; RCPT sequence == To ++ Cc ++ Bcc in order, one per occurrence; no Bcc token in the rendered or transmitted bytes, raw or after decoding every header (RFC 2047) and leaf (QP/base64); no Bcc field; From (or envelope-from), To, Cc, Reply-To occur once and parse (own RFC 5322 parser) to the model's names and mailboxes. " +
 		"Non-trivial: >= 1 Bcc in the final model and >= 2 calls on the same list. Distinct by the call-kind sequence."
